@@ -95,6 +95,9 @@ class Prop:
     anchors: List[str] = []
     # lower bounds below which a run is inconclusive
     warnings_as_errors = True   # every fifth case runs under warnings.simplefilter("error"); off where the statement itself demands a warning
+    tour = True                 # vf/tour.py: the library's other features are used in the same process before / between / during the cases
+    tour_noisy = True           # ... including what the bridge survives loudly (off for the checks that read the loop's exception channel themselves)
+    tour_every = 40             # one tour leg after every so many cases
     min_evaluations = {"quick": 1, "thorough": 1}
     exhaustive = {"quick": False, "thorough": False}
     # soft wall-clock budget per worker (s); generation stops after it (truncated run)
